@@ -182,6 +182,15 @@ def addSubclassEdge (s : St) (sup sub : Cls) : St := { g := addEdge s.g sup sub,
 /-- `add_subclass_edge` as found: the memos survive -/
 def addSubclassEdgeStale (s : St) (sup sub : Cls) : St := { s with g := addEdge s.g sup sub }
 
+/-- a tempting "optimisation" of the repaired `add_subclass_edge` (seeded regression C26-4): the flush is skipped when
+`sub` is already reachable from `sup` before the edge is added (`super_class in graph and sub_class in graph and
+nx.has_path(graph, super_class, sub_class)`: a repeated edge, or `class C(B, A)` with `class B(A)`), on the argument
+that nobody's ancestors or descendants change. Only used to state why EVERY new edge must flush
+(`skip_flush_when_reachable_cex`): `subtype_distance` is a shortest-path length and changes under a shortcut edge. -/
+def addSubclassEdgeSkipReachable (s : St) (sup sub : Cls) : St :=
+  if (allNodes s.g).contains sup && (allNodes s.g).contains sub && isSubclass s.g sub sup
+  then addSubclassEdgeStale s sup sub else addSubclassEdge s sup sub
+
 inductive Op where
   | edge (sup sub : Cls)
   | ask (q : Query)
@@ -195,6 +204,65 @@ def run (anyD : Nat) (stale : Bool) : St → List Op → St × List Answer
     let r := ask anyD s q
     let rest := run anyD stale r.1 ops
     (rest.1, r.2 :: rest.2)
+
+/-- the same history with an arbitrary edge policy (used with `addSubclassEdgeSkipReachable`) -/
+def runWith (anyD : Nat) (edge : St → Cls → Cls → St) : St → List Op → St × List Answer
+  | s, [] => (s, [])
+  | s, .edge a b :: ops => runWith anyD edge (edge s a b) ops
+  | s, .ask q :: ops =>
+    let r := ask anyD s q
+    let rest := runWith anyD edge r.1 ops
+    (rest.1, r.2 :: rest.2)
+
+/-! ## the providers' look-ups go through the memoised type queries
+
+`GeneratorProvider._get_generators_for(T)` calls the memoised `TypeSystem.subtype_distance(T, S)` once per bucket `S`
+of the table, `RandomGeneratorProvider._get_generators_for(T)` the memoised `is_maybe_subtype(S, T)`; the distance
+stored in the `_Generator` handed out (and the fitness computed from it) is the memoised answer. -/
+
+/-- a sequence of memoised calls -/
+def askAll (anyD : Nat) : St → List Query → St × List Answer
+  | s, [] => (s, [])
+  | s, q :: qs =>
+    let r := ask anyD s q
+    let rest := askAll anyD r.1 qs
+    (rest.1, r.2 :: rest.2)
+
+/-- the memoised queries of one look-up of the heuristic provider, in table order -/
+def heuristicQueries (tbl : Table) (T : Ty) : List Query := tbl.map fun p => .dist T p.1
+
+/-- the memoised queries of one look-up of the random provider, in table order -/
+def randomQueries (tbl : Table) (T : Ty) : List Query := tbl.map fun p => .maybe p.1 T
+
+/-- buckets whose memoised distance is defined, each generator with that distance -/
+def heuristicFromAnswers : Table → List Answer → List (Nat × Option Nat)
+  | p :: tbl, .d (some d) :: ans => p.2.map (fun i => (i, some d)) ++ heuristicFromAnswers tbl ans
+  | _ :: tbl, _ :: ans => heuristicFromAnswers tbl ans
+  | _, _ => []
+
+/-- buckets whose memoised `is_maybe_subtype` answer is `True` -/
+def randomFromAnswers : Table → List Answer → List Nat
+  | p :: tbl, .b true :: ans => p.2 ++ randomFromAnswers tbl ans
+  | _ :: tbl, _ :: ans => randomFromAnswers tbl ans
+  | _, _ => []
+
+/-- `GeneratorProvider._get_generators_for(T)` as the code runs it: through the memo of the type system -/
+def offeredHeuristicM (anyD : Nat) (prims : List Cls) (tbl : Table) (s : St) (T : Ty) : St × List (Nat × Option Nat) :=
+  match T with
+  | .any => (s, (allGens tbl).map (fun i => (i, none)))
+  | T =>
+    if isPrimitive prims T then (s, [])
+    else
+      let r := askAll anyD s (heuristicQueries tbl T)
+      (r.1, heuristicFromAnswers tbl r.2)
+
+/-- `RandomGeneratorProvider._get_generators_for(T)` through the memo of the type system -/
+def offeredRandomM (anyD : Nat) (tbl : Table) (s : St) (T : Ty) : St × List Nat :=
+  match T with
+  | .any => (s, allGens tbl)
+  | T =>
+    let r := askAll anyD s (randomQueries tbl T)
+    (r.1, (randomFromAnswers tbl r.2).eraseDups)
 
 /-! ## the visitors' recursion through the memo -/
 
